@@ -10,7 +10,7 @@
    partial trace in ProofsPtrace.v). *)
 From Coq Require Import ZArith List Bool Arith Lia Permutation.
 From QV Require Import Base.Mat Base.Zi C17.Alg C17.Model C17.ZiInst
-  C18.Model C18.Spec C18.ZiInst C18.ProofsBits C18.ProofsPtrace C04.ChannelSpec.
+  C18.Model C18.Spec C18.ZiInst C18.ProofsBits C18.ProofsPtrace C01.ProofsMat C04.ChannelSpec C04.LiftTP C04.LiftFast.
 Import ListNotations.
 
 (* ---------- allbits enumerates the bit strings in the order of their flat index *)
@@ -188,6 +188,35 @@ Proof.
 Qed.
 Print Assumptions reset_closed_is_lift.
 Print Assumptions depol_closed_is_lift.
+
+(* ---------- hence the FAST PATHS (weights (x) partial_trace) are Kraus maps, scale the trace by the total weight
+   and map Gram forms to Gram forms (complete positivity), for every n  (C04/LiftTP.v, C04/LiftFast.v) *)
+Theorem lift_reset_is_kraus_map n q w w0 w1 rho : q < n -> wf_mat n rho ->
+  lift_reset n q w w0 w1 rho = apply_kraus n w (zuterms (reset_wt w0 w1) [q]) rho.
+Proof. intros Hq Hr. rewrite <- (reset_closed_is_lift n q w w0 w1 rho Hq). now apply reset_closed_is_kraus_map. Qed.
+Theorem lift_depol_is_kraus_map n qs w wl rho : NoDup qs -> (forall q, In q qs -> q < n) -> wf_mat n rho ->
+  lift_depol n qs w wl rho = apply_kraus n w (zuterms (fun _ _ => wl) qs) rho.
+Proof. intros Hn Hq Hr. rewrite <- (depol_closed_is_lift n qs w wl rho Hn Hq). now apply depol_closed_is_kraus_map. Qed.
+
+Theorem lift_reset_trace n q w w0 w1 rho : q < n -> wf_mat n rho ->
+  ztr n (lift_reset n q w w0 w1 rho) = zi_mul (LiftTP.zw (w + (w0 + w1))) (ztr n rho).
+Proof. intros Hq Hr. rewrite <- (reset_closed_is_lift n q w w0 w1 rho Hq). now apply reset_closed_trace. Qed.
+Theorem lift_depol_trace n qs w wl rho : NoDup qs -> (forall q, In q qs -> q < n) -> wf_mat n rho ->
+  ztr n (lift_depol n qs w wl rho)
+  = zi_mul (zi_add (LiftTP.zw w) (Model.tsum Ziops (map (fun _ => LiftTP.zw wl) (allbits (length qs))))) (ztr n rho).
+Proof. intros Hn Hq Hr. rewrite <- (depol_closed_is_lift n qs w wl rho Hn Hq). now apply depol_closed_trace. Qed.
+
+Theorem lift_reset_preserves_gram_form n q w w0 w1 l : q < n ->
+  lift_reset n q w w0 w1 (gram Ziops zi_conj n l)
+  = gram Ziops zi_conj n (gram_out Ziops n (LiftTP.zw w) (map zlift (zuterms (reset_wt w0 w1) [q])) l).
+Proof. intros Hq. rewrite <- (reset_closed_is_lift n q w w0 w1 _ Hq). now apply reset_closed_preserves_gram_form. Qed.
+Theorem lift_depol_preserves_gram_form n qs w wl l : NoDup qs -> (forall q, In q qs -> q < n) ->
+  lift_depol n qs w wl (gram Ziops zi_conj n l)
+  = gram Ziops zi_conj n (gram_out Ziops n (LiftTP.zw w) (map zlift (zuterms (fun _ _ => wl) qs)) l).
+Proof. intros Hn Hq. rewrite <- (depol_closed_is_lift n qs w wl _ Hn Hq). now apply depol_closed_preserves_gram_form. Qed.
+Print Assumptions lift_reset_is_kraus_map.
+Print Assumptions lift_depol_trace.
+Print Assumptions lift_depol_preserves_gram_form.
 
 (* non-vacuity / instance: one qubit of two reset with weights (w,w0,w1) = (1,1,2) *)
 Example lift_reset_instance :
